@@ -32,13 +32,15 @@ GenInit == /\ \E c \in (IF GenCfgs = "all" THEN GCfgs ELSE {x \in GCfgs : x.f = 
 
 Changes(j, i) == rep[i][j] # step[j] \/ j \notin conn[i]
 Lagging(i) == \E j \in Peers(i) : rep[i][j] < Bar(i)
+\* the last step report of a member that died may never have been sent: a barrier that needs exactly that value is not DUE
+Sure(i) == \A j \in Honest \ {i} : Dead(j) => step[j] # Bar(i)
 \* one eager internal step (canonical choice); a step that makes a pending call return appends "Await"
 Ret(i) == hist' = Append(hist, [ev |-> "Await", i |-> i]) /\ pend' = [pend EXCEPT ![i] = FALSE]
 Quiet == UNCHANGED <<hist, pend>>
 IntEnabled ==
   \/ \E j, i \in Honest : i # j /\ ClientUp(j, i) /\ ServerUp(i) /\ Changes(j, i)
-  \/ \E i \in Honest : ENABLED Connected(i) \/ ENABLED Pass(i) \/ ENABLED Fail(i) \/ ENABLED Down(i) \/ ENABLED FRej(i)
-                       \/ (ENABLED TooFar(i) /\ ~Lagging(i))
+  \/ \E i \in Honest : ENABLED Connected(i) \/ (ENABLED Pass(i) /\ Sure(i)) \/ ENABLED Fail(i) \/ ENABLED Down(i) \/ ENABLED FRej(i)
+                       \/ (ENABLED TooFar(i) /\ ~Lagging(i) /\ Sure(i))
   \/ \E i \in Honest, j \in Members : ENABLED ShutMsg(i, j)
 Internal ==
   /\ UNCHANGED fin
@@ -51,10 +53,10 @@ Internal ==
             IN Ping(p[1], p[2]) /\ Quiet
      ELSE IF \E i \in Honest : ENABLED Connected(i)
        THEN LET i == CHOOSE x \in Honest : ENABLED Connected(x) IN Connected(i) /\ Quiet
-     ELSE IF \E i \in Honest : ENABLED Pass(i)
-       THEN LET i == CHOOSE x \in Honest : ENABLED Pass(x) IN Pass(i) /\ (IF phase[i] = "wait" THEN Ret(i) ELSE Quiet)
-     ELSE IF \E i \in Honest : ENABLED TooFar(i) /\ ~Lagging(i)
-       THEN LET i == CHOOSE x \in Honest : ENABLED TooFar(x) /\ ~Lagging(x) IN TooFar(i) /\ Ret(i)
+     ELSE IF \E i \in Honest : ENABLED Pass(i) /\ Sure(i)
+       THEN LET i == CHOOSE x \in Honest : ENABLED Pass(x) /\ Sure(x) IN Pass(i) /\ (IF phase[i] = "wait" THEN Ret(i) ELSE Quiet)
+     ELSE IF \E i \in Honest : ENABLED TooFar(i) /\ ~Lagging(i) /\ Sure(i)
+       THEN LET i == CHOOSE x \in Honest : ENABLED TooFar(x) /\ ~Lagging(x) /\ Sure(x) IN TooFar(i) /\ Ret(i)
      ELSE IF \E i \in Honest, j \in Members : ENABLED ShutMsg(i, j)
        THEN LET p == CHOOSE q \in Honest \X Members : ENABLED ShutMsg(q[1], q[2]) IN ShutMsg(p[1], p[2]) /\ Quiet
      ELSE LET i == CHOOSE x \in Honest : ENABLED Down(x) IN Down(i) /\ Ret(i)
